@@ -26,7 +26,8 @@ from MIP.geom.forcad import transform_frame
 from MIP.geom.transforms import get_transforms
 
 from ..Surface.SurfaceMCNP import SurfaceMCNP
-from .TransformationQuad import transformation_quad
+from .TransformationQuad import (transformation_quad,
+                                 special_quadric_to_quadric)
 from .TransformationError import TransformationError
 
 from ..Surface.ESurfaceTypeMCNP import ESurfaceTypeMCNP as MS
@@ -395,7 +396,15 @@ def transformation(trpl, surface):
     '''
     if not trpl:
         return surface
-    if surface.type_surface in (MS.SQ, MS.GQ):
+    if surface.type_surface == MS.SQ:
+        # transformation_quad() works on GQ coefficients; a transformed SQ is
+        # not an SQ (axes parallel to the coordinate axes) any more
+        frame = tuple(surface.param_surface)
+        gq_params = special_quadric_to_quadric(surface.compl_param)
+        params = transformation_quad(gq_params, trpl)
+        return SurfaceMCNP(surface.boundary_cond, MS.GQ, frame, params,
+                           surface.idorigin)
+    if surface.type_surface == MS.GQ:
         frame = tuple(surface.param_surface)
         params = transformation_quad(surface.compl_param, trpl)
     else:
